@@ -13,7 +13,7 @@ def cutPieces (s : Seq) : List Int → List Seq
   | _ => []
 
 /-- `slice;…;slice;concat;repair` with the cut positions `cuts` -/
-def roundTrip (s : Seq) (cuts : List Int) : Outcome :=
+def roundTrip (s : Seq) (cuts : List Int) : RepairOutcome :=
   repair (Seq.concat (cutPieces s (0 :: cuts ++ [s.len]))).feats
 
 /-! ### slices and their concatenation -/
